@@ -287,3 +287,78 @@ def run_C18(tier):
     write_evidence('C18', tier, 'exploration', cov, t0, len(viol), ['time_t is 64-bit and nsync_time is struct timespec (both builds in this sandbox)'])
     print('C18 %s: %d evaluations (%d non-trivial), %d failing runs, %.1fs' % (tier, evals, nontriv, len(viol), time.time() - t0))
     return code
+
+# =====================================================================  C15
+COMMON_SRC = ['internal/%s.c' % b for b in ('common', 'counter', 'cv', 'debug', 'dll', 'mu', 'mu_wait', 'note', 'once', 'sem_wait', 'time_internal', 'wait')]
+C_OS_SRC = ['platform/posix/src/nsync_panic.c', 'platform/posix/src/per_thread_waiter.c', 'platform/posix/src/time_rep.c', 'platform/posix/src/yield.c', 'platform/linux/src/nsync_semaphore_futex.c']
+CPP_OS_SRC = ['platform/linux/src/nsync_semaphore_futex.c', 'platform/posix/src/per_thread_waiter.c', 'platform/c++11/src/yield.cc', 'platform/c++11/src/time_rep_timespec.cc', 'platform/c++11/src/nsync_panic.cc']
+
+def build_real(d, cpp):
+    """The library exactly as CMakeLists.txt builds it (same sources, include order and definitions), no hook."""
+    exe = os.path.join(d, 'seq_deadline_' + ('cpp' if cpp else 'c'))
+    srcs = [os.path.join(REPO, s) for s in COMMON_SRC + (CPP_OS_SRC if cpp else C_OS_SRC)] + [os.path.join(V, 'seq/seq_deadline.c')]
+    if cpp:
+        cmd = ['g++', '-std=c++11', '-x', 'c++', '-O1', '-g', '-DNSYNC_USE_CPP11_TIMEPOINT', '-DNSYNC_ATOMIC_CPP11',
+               '-I%s/platform/c++11.futex' % REPO, '-I%s/platform/c++11' % REPO] + INC + srcs + ['-lpthread', '-o', exe]
+    else:
+        cmd = ['gcc', '-O1', '-g'] + INC + srcs + ['-lpthread', '-o', exe]
+    r = subprocess.run(cmd, stderr=subprocess.PIPE, text=True)
+    if r.returncode:
+        raise mcdriver.FrameworkError('cannot build the real library for C15: ' + r.stderr[-3000:])
+    return exe
+
+EP_NAMES = ["cv_wait /", "cv_wait+note", "cv_wait(reader)", "mu_wait(cond false)", "mu_wait(cond true)", "mu_wait+note", "note_wait", "counter_wait", "wait_n{note}", "wait_n{counter}", "wait_n{cv}", "wait_n{5 objects}"]
+
+def run_C15(tier):
+    t0 = time.time()
+    d = scratch()
+    from concurrent.futures import ThreadPoolExecutor
+    jobs = []
+    dvals = [50] if tier == 'quick' else [50, 200]
+    for cpp in (False, True):
+        exe = build_real(d, cpp)
+        for dm in dvals:
+            for ep in EP_NAMES:
+                jobs.append((cpp, dm, ep, [exe, str(dm), ep]))
+    def work(j):
+        r = subprocess.run(j[3], stdout=subprocess.PIPE, stderr=subprocess.PIPE, text=True)
+        lines = r.stdout.strip().splitlines()
+        try:
+            summ = json.loads(lines[-1])
+        except Exception:
+            summ = {'cases': 0, 'nontrivial': 0, 'failures': 1}
+            lines.append('FAIL %s: checker process died (exit %d)' % (j[2], r.returncode))
+        return j, summ, [l for l in lines if l.startswith('FAIL')]
+    cases = nontriv = 0
+    fails = []
+    # half the cores: the cases measure real time and must not be starved
+    with ThreadPoolExecutor(max_workers=max(2, mcdriver.NPROC // 2)) as ex:
+        for j, summ, fl in ex.map(work, jobs):
+            cases += summ['cases']; nontriv += summ['nontrivial']
+            for l in fl:
+                fails.append({'build': 'C++' if j[0] else 'C', 'd_ms': j[1], 'case': l[5:]})
+    known = [k for k in mcdriver.load_known_findings() if k.get('property') == 'C15']
+    code = 0
+    n = 0
+    shown_known = set()
+    for f in fails:
+        hit = None
+        for k in known:
+            if k.get('msg') and __import__('re').search(k['msg'].replace('_', ' '), f['case']):
+                hit = k; break
+        if hit:
+            if hit['what'] not in shown_known:
+                shown_known.add(hit['what']); print('KNOWN-FINDING: property=C15 %s (e.g. %s build: %s)' % (hit['what'], f['build'], f['case']))
+            continue
+        n += 1
+        if n <= 12:
+            p = write_replay('C15', n, dict(f, property='C15', how_to_replay='lib/seqchecks.py builds seq/seq_deadline.c against the tree; run: seq_deadline_<c|cpp> <d_ms> "<entry point>"'))
+            print('VIOLATION property=C15 replay=%s' % p); print('  %s build, d=%d ms: %s' % (f['build'], f['d_ms'], f['case']))
+        code = 1
+    cov = {'evaluations': cases, 'distinct_nontrivial': nontriv,
+           'rule': 'every combination of entry point {cv wait, cv wait with note, cv wait in reader mode, mu_wait with false / true condition, mu_wait with note, note_wait, counter_wait, wait_n on a note / a counter / a cv / 5 objects (heap path)} x deadline {zero, +1ns, -1ns, +1s, -1s, -2^31 s, INT64_MIN s, now-d, now, now+d, no_deadline-1ns, no_deadline} x awaited event {never, already happened, happens at +d/2} x build {C, C++11}, d in %s ms; each case in a forked child on the real futex semaphore, clock and kernel; a case is non-trivial unless it is "no deadline and no event" (which must simply still be waiting after 3d)' % dvals,
+           'samples': [{'entry': 'cv_wait', 'deadline': '-1s', 'event': 'never', 'expect': 'ETIMEDOUT within 2 s, no crash'}, {'entry': 'wait_n{5 objects}', 'deadline': 'now+d', 'event': 'happens at +d/2', 'expect': 'index of the notified note, not a timeout'}],
+           'exhaustive': True, 'failing_cases': len(fails)}
+    write_evidence('C15', tier, 'exploration', cov, t0, n, ['timing thresholds are generous (2 s for "promptly", 1 ms slack for "not early") so that machine load cannot raise an alarm', 'the real Linux futex and CLOCK_REALTIME of this sandbox'])
+    print('C15 %s: %d cases (%d non-trivial), %d failing, %.1fs' % (tier, cases, nontriv, len(fails), time.time() - t0))
+    return code
